@@ -105,6 +105,12 @@ func mkQ(m, c string, s, cp, o int) qx {
 }
 
 // read performs request q on g; armed >= 0 arms a one-shot fault on the wrapped driver.
+// reuseLO (sequential modes only: one goroutine): some lookups are made with one shared, mutated options value
+var (
+	reuseLO  bool
+	sharedLO = &storage.LookupOptions{}
+)
+
 func read(g storage.Graph, q qx) ([]int, bool) {
 	if q.M == "Exist" {
 		ok, err := g.Exist(ctx, u.Triple(q.T))
@@ -116,7 +122,15 @@ func read(g storage.Graph, q qx) ([]int, bool) {
 		}
 		return []int{0}, false
 	}
-	res, err, closed := storeops.Lookup(ctx, u, g, &q.Q, storeops.Options(u, &q.Q))
+	lo := storeops.Options(u, &q.Q)
+	if reuseLO && rng.Intn(3) == 0 {
+		// a caller that keeps ONE options value and re-points its fields between lookups (a window sweep, a paging loop)
+		sharedLO.MaxElements, sharedLO.Offset = lo.MaxElements, lo.Offset
+		sharedLO.LowerAnchor, sharedLO.UpperAnchor = lo.LowerAnchor, lo.UpperAnchor
+		sharedLO.LatestAnchor, sharedLO.FilterOptions = lo.LatestAnchor, lo.FilterOptions
+		lo = sharedLO
+	}
+	res, err, closed := storeops.Lookup(ctx, u, g, &q.Q, lo)
 	if err == storeops.ErrTimeout || !closed {
 		must(fmt.Errorf("lookup %+v did not finish (closed=%v err=%v)", q, closed, err))
 	}
@@ -514,6 +528,8 @@ func randQ() qx {
 }
 
 func runSeq(runs, steps int, faults bool) {
+	reuseLO = true
+	defer func() { reuseLO = false }()
 	if hookAvailable {
 		installHook(gate)
 		recMode = true
@@ -646,6 +662,8 @@ func runSeq(runs, steps int, faults bool) {
 // memoizer maps to one key are exposed when the second is answered with the cached answer of the first.
 // every: keep one argument tuple in `every` (seeded), 1 = all.
 func runKeys(every int) {
+	reuseLO = true
+	defer func() { reuseLO = false }()
 	if hookAvailable {
 		installHook(gate)
 		recMode = true
